@@ -18,6 +18,27 @@ from ..mutation import Mutations, is_fresh
 from .c18 import const_str, resolve_local, join_shape
 
 
+def flatten_family(ctx) -> Set[str]:
+    """flatten_to_strlist and the function it merely wraps (`return list(<core>(value, skip_empty_strings))`): a generator
+    core yields exactly the strings the list version returns."""
+    cached = getattr(ctx, '_flatten_family', None)
+    if cached is not None:
+        return cached
+    out = {'flatten_to_strlist'}
+    f = ctx.prog.try_func('misc_utils', 'flatten_to_strlist')
+    if f is not None:
+        body = [b for b in f.node.body if not (isinstance(b, ast.Expr) and isinstance(b.value, ast.Constant))]
+        if len(body) == 1 and isinstance(body[0], ast.Return) and isinstance(body[0].value, ast.Call):
+            c = body[0].value
+            if getattr(c.func, 'id', '') in ('list', 'tuple') and len(c.args) == 1 and isinstance(c.args[0], ast.Call):
+                c = c.args[0]
+            nm = getattr(c.func, 'id', None)
+            if nm and ctx.prog.try_func('misc_utils', nm) is not None:
+                out.add(nm)
+    ctx._flatten_family = out
+    return out
+
+
 class Clean:
     """Judgement `clean(e)`: e is a list of strings none of which contains a line break."""
 
@@ -31,10 +52,21 @@ class Clean:
         env = ctx.cg.env(fn)
         if depth > 8:
             return None, 'too deep'
+        if isinstance(e, (ast.ListComp, ast.GeneratorExp)):
+            # [E for x in S for y in T(x) ...]: the result holds the values of E; E is (a name bound by) the innermost
+            # generator whose iterable is a clean list, or itself a clean string
+            gens = e.generators
+            if isinstance(e.elt, ast.Name):
+                g = next((g_ for g_ in gens if isinstance(g_.target, ast.Name) and g_.target.id == e.elt.id), None)
+                if g is not None:
+                    r = self.clean_list(fn, g.iter, depth + 1)
+                    return (r[0], 'every element of ' + r[1]) if r[0] is not None else r
+            r = self.clean_str(fn, e.elt, depth + 1, at=e.elt)
+            return (r[0], 'comprehension of ' + r[1])
         if isinstance(e, ast.List):
             if not e.elts:
                 return True, 'empty list'
-            rs = [self.clean_str(fn, x, depth + 1) for x in e.elts]
+            rs = [self.clean_str(fn, x, depth + 1, at=x) for x in e.elts]
             if all(r[0] for r in rs):
                 return True, 'list of line-break free strings'
             return next(r for r in rs if not r[0])
@@ -51,7 +83,7 @@ class Clean:
             fname = getattr(f, 'id', getattr(f, 'attr', ''))
             if fname in ('deepcopy', 'list', 'copy', 'sorted', 'reversed') and e.args:
                 return self.clean_list(fn, e.args[0], depth + 1)
-            if fname == 'flatten_to_strlist' and e.args:
+            if fname in flatten_family(self.ctx) and e.args:
                 r = self.clean_list(fn, e.args[0], depth + 1)
                 return (r[0], 'flatten of ' + r[1])
             if fname == 'trim_list' and e.args:
@@ -221,13 +253,18 @@ def check(ctx):
                 r = cl.clean_str(app, n.args[0], at=n)
                 if r[0] and 'empty string' in r[1]:
                     has_empty_branch = True
+            if isinstance(n, ast.List) and len(n.elts) == 1 and isinstance(n.elts[0], ast.Name):
+                # `[s]` as the lines of an empty s (the alternative of `s.splitlines() if s else [s]`)
+                r = cl.clean_str(app, n.elts[0], at=n.elts[0])
+                if r[0] and 'empty string' in r[1]:
+                    has_empty_branch = True
         run.add('C17.provenance', app.module.name, app.qualname, 'blank-line branch', has_empty_branch,
                 'an empty string contributes one blank line (appended as itself, since "".splitlines() == [])'
                 if has_empty_branch else
                 'no branch appends the empty string itself: "".splitlines() == [] makes blank lines vanish')
         # flatten is called with skip_empty_strings=False inside append
         for n in iter_own_nodes(app.node):
-            if isinstance(n, ast.Call) and getattr(n.func, 'id', '') == 'flatten_to_strlist':
+            if isinstance(n, ast.Call) and getattr(n.func, 'id', '') in flatten_family(ctx):
                 kw = {k.arg: k.value for k in n.keywords}
                 skip = kw.get('skip_empty_strings', n.args[1] if len(n.args) > 1 else None)
                 ok = isinstance(skip, ast.Constant) and skip.value is False
@@ -378,69 +415,189 @@ def _str_rule(ctx, tb: ClassInfo):
 
 
 def _flatten_rule(ctx):
+    """What flatten_to_strlist contributes for a value of each kind, decided by walking the function (or the generator it
+    wraps) under a scenario: kind of `value` x skip flag.  The walk follows the branch every test selects and records what
+    is emitted (appended / yielded / returned) and which recursion happens."""
+    from .shared import eval_guard
     run, prog = ctx.run, ctx.prog
-    f = prog.try_func('misc_utils', 'flatten_to_strlist')
-    if f is None:
+    f0 = prog.try_func('misc_utils', 'flatten_to_strlist')
+    if f0 is None:
         run.error('C17.flatten-shape', 'dznpy.misc_utils', '-', 'flatten_to_strlist', 'flatten_to_strlist vanished')
         return
-    abs_ = Abs(prog, ctx.cg, ctx.flow)
+    fam = flatten_family(ctx)
+    core_name = next((n for n in fam if n != 'flatten_to_strlist'), 'flatten_to_strlist')
+    f = prog.try_func('misc_utils', core_name) or f0
     val = f.params()[0].arg
     skip = f.params()[1].arg if len(f.params()) > 1 else None
-    seen = {'list': False, 'dict': False, 'str': False, 'none': False, 'other': False}
-    for n in iter_own_nodes(f.node):
-        # recursive descent
-        if isinstance(n, (ast.For,)):
-            facts = [(ast.unparse(c), p) for c, p in abs_.facts_at(n)]
-            it = ast.unparse(n.iter)
-            is_list = (f'isinstance({val}, list)', True) in facts
-            is_dict = (f'isinstance({val}, dict)', True) in facts
-            body_ok = len(n.body) == 1 and isinstance(n.body[0], ast.Expr) and isinstance(n.body[0].value, ast.Call) and \
-                ast.unparse(n.body[0].value.func).endswith('.extend') and \
-                isinstance(n.body[0].value.args[0], ast.Call) and \
-                getattr(n.body[0].value.args[0].func, 'id', '') == f.name and \
-                isinstance(n.body[0].value.args[0].args[0], ast.Name) and \
-                n.body[0].value.args[0].args[0].id == getattr(n.target, 'id', None)
-            passes_skip = body_ok and (len(n.body[0].value.args[0].args) > 1 and
-                                       ast.unparse(n.body[0].value.args[0].args[1]) == skip or
-                                       any(k.arg == skip and ast.unparse(k.value) == skip
-                                           for k in n.body[0].value.args[0].keywords))
-            if is_list:
-                ok = it == val and body_ok and passes_skip
-                seen['list'] = True
-                run.add('C17.flatten-shape', f.module.name, f.qualname, n, ok,
-                        'lists are flattened item by item, in order, with the same skip flag' if ok else
-                        'the list branch does not extend the result with every item in order', node=n)
-            elif is_dict:
-                ok = it == f'{val}.values()' and body_ok and passes_skip
-                seen['dict'] = True
-                run.add('C17.flatten-shape', f.module.name, f.qualname, n, ok,
-                        'dict values are flattened in iteration order' if ok else
-                        f'the dict branch iterates `{it}` instead of the values', node=n)
-        if isinstance(n, ast.Return):
-            facts = [(ast.unparse(c), p) for c, p in abs_.facts_at(n)]
-            if (f'isinstance({val}, str)', True) in facts:
-                # early return inside the str branch: only for the empty string under the skip flag
-                ok = any(t == skip and p for t, p in facts) and any(t in (f'len({val}) == 0', f"{val} == ''") and p or
-                                                                    t == val and not p for t, p in facts)
-                seen['str'] = True
-                run.add('C17.flatten-shape', f.module.name, f.qualname, n, ok,
-                        'a string is skipped only when it is empty and skipping is requested' if ok else
-                        'strings are dropped under a different condition than "empty and skip_empty_strings"', node=n)
-            elif any(t == f'{val} is None' and p for t, p in facts):
-                seen['none'] = True
-                run.holds('C17.flatten-shape', f.module.name, f.qualname, n, 'None contributes nothing', node=n)
-        if isinstance(n, ast.Call) and ast.unparse(n.func).endswith('.append') and n.args:
-            facts = [(ast.unparse(c), p) for c, p in abs_.facts_at(n)]
-            arg = ast.unparse(n.args[0])
-            if (f'isinstance({val}, str)', True) in facts:
-                run.add('C17.flatten-shape', f.module.name, f.qualname, n, arg == val,
-                        'a string contributes itself' if arg == val else f'a string contributes `{arg}`', node=n)
-            elif arg == f'str({val})':
-                seen['other'] = True
-                run.holds('C17.flatten-shape', f.module.name, f.qualname, n, 'other values contribute str(value)', node=n)
-    for k, v in seen.items():
-        if not v:
-            run.violation('C17.flatten-shape', f.module.name, f.qualname, f'flatten branch: {k}',
-                          f'no branch of flatten_to_strlist handles {k} values as specified')
-    # single accumulated result returned
+    defs = {}
+    for a in iter_own_nodes(f.node):
+        if isinstance(a, ast.Assign) and len(a.targets) == 1 and isinstance(a.targets[0], ast.Name):
+            defs.setdefault(a.targets[0].id, []).append(a.value)
+
+    def expand(nm: ast.Name):
+        d = defs.get(nm.id, [])
+        return d[0] if len(d) == 1 and nm.id not in (val, skip) else None
+
+    KINDS = ('list', 'dict', 'none', 'str-empty', 'str-nonempty', 'other-empty', 'other-nonempty')
+
+    def leaf_for(kind: str, skipping: bool):
+        def is_val(e) -> bool:
+            return isinstance(e, ast.Name) and e.id == val
+
+        def leaf(e):
+            if isinstance(e, ast.Name) and e.id == skip:
+                return skipping
+            if isinstance(e, ast.Call) and getattr(e.func, 'id', '') == 'isinstance' and len(e.args) == 2 and is_val(e.args[0]):
+                ts = e.args[1].elts if isinstance(e.args[1], ast.Tuple) else [e.args[1]]
+                names = {getattr(t, 'id', getattr(t, 'attr', '?')) for t in ts}
+                base = kind.split('-')[0]
+                py = {'list': 'list', 'dict': 'dict', 'str': 'str'}.get(base)
+                if names <= {'list', 'dict', 'str', 'List', 'Dict'}:
+                    return py is not None and (py in names or py.capitalize() in names)
+                return None
+            if isinstance(e, ast.Compare) and len(e.ops) == 1 and is_val(e.left) and isinstance(e.comparators[0], ast.Constant):
+                c = e.comparators[0].value
+                if c is None and isinstance(e.ops[0], (ast.Is, ast.IsNot, ast.Eq, ast.NotEq)):
+                    r = kind == 'none'
+                    return r if isinstance(e.ops[0], (ast.Is, ast.Eq)) else not r
+                if c == '' and isinstance(e.ops[0], (ast.Eq, ast.NotEq)) and kind.startswith('str'):
+                    r = kind == 'str-empty'
+                    return r if isinstance(e.ops[0], ast.Eq) else not r
+            if isinstance(e, ast.Compare) and len(e.ops) == 1 and isinstance(e.left, ast.Call) and getattr(e.left.func, 'id', '') == 'len' \
+                    and e.left.args and is_val(e.left.args[0]) and isinstance(e.comparators[0], ast.Constant) and kind.startswith('str'):
+                n_ = 0 if kind == 'str-empty' else 1
+                c = e.comparators[0].value
+                op = e.ops[0]
+                table = {ast.Eq: n_ == c, ast.NotEq: n_ != c, ast.Gt: n_ > c, ast.GtE: n_ >= c, ast.Lt: n_ < c, ast.LtE: n_ <= c}
+                if type(op) in table and c in (0, 1):
+                    return table[type(op)]
+            if is_val(e):      # truthiness of the value itself
+                return {'none': False, 'str-empty': False, 'str-nonempty': True, 'other-nonempty': None, 'other-empty': None}.get(kind)
+            if isinstance(e, ast.Call) and getattr(e.func, 'id', '') == 'str' and len(e.args) == 1 and is_val(e.args[0]):
+                return {'str-empty': False, 'str-nonempty': True, 'other-empty': False, 'other-nonempty': True}.get(kind)
+            return None
+        return leaf
+
+    def what(e: ast.expr) -> str:
+        e2 = e
+        if isinstance(e2, ast.Name) and e2.id != val:
+            d = expand(e2)
+            e2 = d if d is not None else e2
+        if isinstance(e2, ast.Name) and e2.id == val:
+            return 'value'
+        if isinstance(e2, ast.Call) and getattr(e2.func, 'id', '') == 'str' and len(e2.args) == 1 and \
+                isinstance(e2.args[0], ast.Name) and e2.args[0].id == val:
+            return 'str(value)'
+        return '?' + ast.unparse(e)[:30]
+
+    def recursion(call: ast.expr, loop_var: Optional[str]) -> Optional[Tuple[bool, bool]]:
+        """(on the loop variable?, passes the skip flag on?) for a recursive call of the flatten family"""
+        if isinstance(call, ast.Call) and getattr(call.func, 'id', '') in fam and call.args:
+            b = prog.bind_call(f.module, call)
+            arg0 = call.args[0]
+            sk = b.get(skip) if skip else None
+            return (isinstance(arg0, ast.Name) and arg0.id == loop_var,
+                    skip is None or (isinstance(sk, ast.Name) and sk.id == skip))
+        return None
+
+    def walk(stmts, leaf, events) -> Optional[bool]:
+        """True: the block certainly returns; False: falls through; None: undecided"""
+        for st in stmts:
+            if isinstance(st, ast.Expr) and isinstance(st.value, ast.Constant):
+                continue
+            if isinstance(st, ast.If):
+                t = eval_guard(st.test, leaf, expand)
+                if t is None:
+                    events.append(('undecided', ast.unparse(st.test)[:50]))
+                    return None
+                r = walk(st.body if t else st.orelse, leaf, events)
+                if r is None or r:
+                    return r
+                continue
+            if isinstance(st, ast.Return):
+                v = st.value
+                if isinstance(v, ast.List) and len(v.elts) == 1:
+                    events.append(('emit', what(v.elts[0])))
+                elif isinstance(v, (ast.ListComp, ast.GeneratorExp)):
+                    events.append(('undecided', 'comprehension result'))
+                    return None
+                return True
+            if isinstance(st, ast.For):
+                it = st.iter
+                if isinstance(it, ast.Name) and it.id != val:
+                    d = expand(it)
+                    if isinstance(d, ast.IfExp):
+                        t = eval_guard(d.test, leaf, expand)
+                        it = (d.body if t else d.orelse) if t is not None else it
+                    elif d is not None:
+                        it = d
+                src = 'value' if isinstance(it, ast.Name) and it.id == val else \
+                    'value.values()' if ast.unparse(it) == f'{val}.values()' else '?' + ast.unparse(it)[:30]
+                lv = st.target.id if isinstance(st.target, ast.Name) else None
+                rec = None
+                if len(st.body) == 1 and isinstance(st.body[0], ast.Expr):
+                    x = st.body[0].value
+                    if isinstance(x, ast.YieldFrom):
+                        rec = recursion(x.value, lv)
+                    elif isinstance(x, ast.Call) and isinstance(x.func, ast.Attribute) and x.func.attr == 'extend' and x.args:
+                        rec = recursion(x.args[0], lv)
+                elif len(st.body) == 1 and isinstance(st.body[0], ast.AugAssign) and isinstance(st.body[0].op, ast.Add):
+                    rec = recursion(st.body[0].value, lv)
+                events.append(('recurse', src, rec))
+                continue
+            if isinstance(st, ast.Expr):
+                x = st.value
+                if isinstance(x, ast.Yield) and x.value is not None:
+                    events.append(('emit', what(x.value)))
+                    continue
+                if isinstance(x, ast.Call) and isinstance(x.func, ast.Attribute) and x.func.attr == 'append' and x.args:
+                    events.append(('emit', what(x.args[0])))
+                    continue
+                if isinstance(x, ast.Call) and isinstance(x.func, ast.Attribute) and x.func.attr == 'extend':
+                    events.append(('undecided', ast.unparse(x)[:40]))
+                    return None
+                continue
+            if isinstance(st, (ast.Assign, ast.AnnAssign, ast.Pass)):
+                continue
+            events.append(('undecided', type(st).__name__))
+            return None
+        return False
+
+    n = 0
+    for kind in KINDS:
+        for skipping in (True, False):
+            events: list = []
+            r = walk(f.node.body, leaf_for(kind, skipping), events)
+            n += 1
+            label = f'{kind} value, skip_empty_strings={skipping}'
+            if any(e_[0] == 'undecided' for e_ in events):
+                run.error('C17.flatten-shape', f.module.name, f.qualname, label,
+                          f'what {f.name} contributes for a {label} could not be decided ({[e_[1] for e_ in events if e_[0] == "undecided"][0]})')
+                continue
+            want = {'list': [('recurse', 'value', (True, True))], 'dict': [('recurse', 'value.values()', (True, True))],
+                    'none': [], 'str-empty': [] if skipping else [('emit', 'value')], 'str-nonempty': [('emit', 'value')],
+                    'other-empty': [], 'other-nonempty': [('emit', 'str(value)')]}[kind]
+            got = list(events)
+            if kind.startswith('str'):
+                got = [('emit', 'value') if e_ == ('emit', 'str(value)') else e_ for e_ in got]     # str(s) is s
+            ok = got == want
+            run.add('C17.flatten-shape', f.module.name, f.qualname, label, ok,
+                    {'list': 'a list contributes its items, flattened in order with the same skip flag',
+                     'dict': 'a dict contributes its values, flattened in order with the same skip flag',
+                     'none': 'None contributes nothing', 'str-empty': 'an empty string is skipped exactly when skipping is requested',
+                     'str-nonempty': 'a string contributes itself', 'other-empty': 'a value with an empty str() contributes nothing',
+                     'other-nonempty': 'other values contribute str(value)'}[kind] if ok else
+                    f'for a {label} {f.name} contributes {got or "nothing"}; specified: {want or "nothing"}')
+    # the wrapper hands value and flag through
+    if f is not f0:
+        body = [b_ for b_ in f0.node.body if not (isinstance(b_, ast.Expr) and isinstance(b_.value, ast.Constant))]
+        c = body[0].value
+        inner = c.args[0] if getattr(c.func, 'id', '') in ('list', 'tuple') else c
+        b = prog.bind_call(f0.module, inner)
+        p0 = [a.arg for a in f0.params()]
+        ok = isinstance(b.get(val), ast.Name) and b[val].id == p0[0] and (
+            skip is None or (isinstance(b.get(skip), ast.Name) and len(p0) > 1 and b[skip].id == p0[1]))
+        run.add('C17.flatten-shape', f0.module.name, f0.qualname, 'wrapper', ok,
+                f'flatten_to_strlist materialises {f.name}(value, skip_empty_strings)' if ok else
+                f'flatten_to_strlist does not hand its arguments on to {f.name} unchanged')
     run.floor('C17.flatten-shape', 6)
